@@ -69,6 +69,8 @@ def check_case(ctx, case, enum=False, cache=None):
     enc, dec = SU.ENCODINGS[encname]
     entry = case["entry"]
     payload = bytes.fromhex(case["payload"])
+    if case.get("payload_repeat"):
+        payload = bytes.fromhex(case["payload_repeat"][0]) * case["payload_repeat"][1]
     nonce = case["nonce"]          # ["k", int] | ["entropy", hexprefix, hexseed] | ["rfc", hexextra]
     at = case.get("at", True)
     vroute = case.get("vk_route", "none")
@@ -316,6 +318,13 @@ def run_unit(ctx, name, **kw):
         if last:
             ctx.sample(last)
     elif name == "toy":
+        if kw["curve"] == "t23a":
+            # 2 MiB message, hashed by the library (kept as pattern x count so that samples stay small)
+            for entry, hname in (("sign", "sha256"), ("sign_deterministic", "sha512"), ("sign", "short4")):
+                for cname in ("NIST256p", "t251a"):
+                    check_case(ctx, {"curve": cname, "d": gen.dom(cname).n - 2, "hash": hname, "enc": "der", "entry": entry,
+                                     "payload": "", "payload_repeat": [bytes(range(256)).hex(), 8192], "nonce": ["rfc", ""] if "det" in entry else ["k", 7],
+                                     "at": True, "boundary": True, "ptype": "memoryview"})
         toy_sweep(ctx, kw["curve"], [bytes.fromhex(x) for x in kw["digests"]], kw["encs"])
         ctx.sample({"curve": kw["curve"], "d": "all", "k": "all", "digests": kw["digests"][:6], "enc": "rotating over 6"})
         ctx.exhausted("%s: all d x all k x listed digests" % kw["curve"])
